@@ -517,3 +517,130 @@ pub fn vft_slots(v: &Vft) -> Slots {
         contradiction,
     }
 }
+
+// ------------------------------------------------------------ method surface
+
+#[derive(Clone, Debug, PartialEq, Eq)]
+pub enum Origin {
+    /// declared in the type's own impl block: calls `addr`
+    Own,
+    /// wrapper for a slot of the type's vftable (own or through the first base)
+    Vfunc { slot: u64 },
+    /// re-exposed from a base sub-object: forwards to `self.<field>.<orig>(..)`
+    Forward { field: String, orig: String },
+}
+
+#[derive(Clone, Debug)]
+pub struct Method {
+    pub name: String,
+    pub func: Func,
+    pub origin: Origin,
+    /// module in whose scope the signature's type names are to be read
+    pub scope_mod: usize,
+}
+
+#[derive(Clone, Debug, Default)]
+pub struct Surface {
+    /// vftable wrappers first, then associated functions, in emission order
+    pub vfuncs: Vec<Method>,
+    pub assoc: Vec<Method>,
+    /// an own impl function clashes with an inherited / vftable name: pyxis rejects
+    pub clash: bool,
+}
+
+impl<'a> Model<'a> {
+    /// The effective vftable of a struct: (declared functions, slots, module of the declaring type, owner type path)
+    pub fn effective_vft(&mut self, m: usize, i: usize) -> Option<(Vft, usize, (usize, usize))> {
+        let Item::Type(td) = &self.prog.mods[m].items[i] else { return None };
+        if let Some(v) = &td.vft {
+            return Some((v.clone(), m, (m, i)));
+        }
+        match self.first_base(m, i) {
+            Some((_, Bind::Item(bm, bi))) => self.effective_vft(bm, bi),
+            _ => None,
+        }
+    }
+
+    pub fn surface(&mut self, m: usize, i: usize) -> Surface {
+        let Item::Type(td) = self.prog.mods[m].items[i].clone() else { return Surface::default() };
+        let mut s = Surface::default();
+        let mut used: Vec<String> = vec![];
+        if let Some((v, vm, _)) = self.effective_vft(m, i) {
+            let slots = vft_slots(&v);
+            for (f, slot) in v.funcs.iter().zip(slots.slot.iter()) {
+                used.push(f.name.clone());
+                s.vfuncs.push(Method {
+                    name: f.name.clone(),
+                    func: f.clone(),
+                    origin: Origin::Vfunc { slot: *slot },
+                    scope_mod: if td.vft.is_some() { m } else { vm },
+                });
+            }
+        }
+        let mut base_no = 0;
+        for f in td.fields.iter().filter(|f| f.base) {
+            let Ty::Named(n) = &f.ty else { continue };
+            let Some(Bind::Item(bm, bi)) = self.bind(m, n) else { continue };
+            if !matches!(self.prog.mods[bm].items[bi], Item::Type(_)) {
+                continue;
+            }
+            let bs = self.surface(bm, bi);
+            let mut add = |meth: &Method, used: &mut Vec<String>, out: &mut Vec<Method>| {
+                if !meth.func.vis {
+                    return;
+                }
+                let mut name = meth.name.clone();
+                if used.contains(&name) {
+                    name = format!("{}_{}", f.name, meth.name);
+                }
+                used.push(name.clone());
+                let has_self = meth.func.has_self();
+                out.push(Method {
+                    name,
+                    func: meth.func.clone(),
+                    // a function without a receiver cannot be forwarded through `self`: it keeps its body
+                    origin: if has_self { Origin::Forward { field: f.name.clone(), orig: meth.name.clone() } } else { meth.origin.clone() },
+                    scope_mod: meth.scope_mod,
+                });
+            };
+            for meth in &bs.assoc {
+                add(meth, &mut used, &mut s.assoc);
+            }
+            if base_no > 0 {
+                for meth in &bs.vfuncs {
+                    add(meth, &mut used, &mut s.assoc);
+                }
+            }
+            base_no += 1;
+        }
+        for im in self.prog.mods[m].impls.iter().filter(|im| im.ty == td.name) {
+            for f in &im.funcs {
+                if used.contains(&f.name) {
+                    s.clash = true;
+                }
+                used.push(f.name.clone());
+                s.assoc.push(Method {
+                    name: f.name.clone(),
+                    func: f.clone(),
+                    origin: Origin::Own,
+                    scope_mod: m,
+                });
+            }
+        }
+        s
+    }
+
+    /// Expected calling convention string of a function.
+    pub fn expected_cc(f: &Func) -> String {
+        match &f.cc {
+            Some(c) => c.clone(),
+            None => {
+                if f.has_self() {
+                    "thiscall".into()
+                } else {
+                    "system".into()
+                }
+            }
+        }
+    }
+}
